@@ -21,6 +21,7 @@ open Qvnt
 instance : Consts Float := ⟨0.5, Float.ofBits 0x3FE6A09E667F3BCD⟩   -- FRAC_1_SQRT_2
 instance : HasSqrt Float := ⟨Float.sqrt⟩
 instance : RegConsts Float := ⟨1e-15, 1e-9⟩
+instance : QReg.HasRound Float := ⟨Float.ofNat, fun x => (Float.round x).toInt64.toInt⟩
 
 def piF : Float := Float.ofBits 0x400921FB54442D18
 def fracPi2 : Float := Float.ofBits 0x3FF921FB54442D18
@@ -178,6 +179,11 @@ structure DSt where
   /-- what the implementation reported for the current op -/
   implActOn : Nat := 0
   implNames : List String := []
+  q2 : Option (QReg Float) := none
+  c : Option CReg := none
+  v : Option VReg := none
+  /-- the implementation's own last observed buffer of the current register -/
+  implPsi : Array (Cx Float) := #[]
 
 structure Report where
   msgs : Array String := #[]
@@ -226,6 +232,385 @@ def specCtrlRefusal (r : Report) (st : DSt) (ln : Nat) (m : Nat) (e : MultiOp Fl
   else r.specfail st ln "c02.refuse" (if want then "refused" else "accepted")
     (if implRefused then "refused" else "accepted")
 
+/-! ### register commands -/
+
+def parseNVec : List String → Option (List Nat × List String)
+  | [] => none
+  | n :: rest => do
+    let n ← tokNat n
+    if rest.length < n then none
+    else
+      let xs ← (rest.take n).mapM tokNat
+      some (xs, rest.drop n)
+
+def parseFVec : List String → Option (List Float × List String)
+  | [] => none
+  | n :: rest => do
+    let n ← tokNat n
+    if rest.length < n then none
+    else
+      let xs ← (rest.take n).mapM tokFloat
+      some (xs, rest.drop n)
+
+def closeList (a b : List Float) : Bool :=
+  a.length == b.length && (a.zip b).all (fun p => closeF p.1 p.2)
+
+def normSqArr (a : Array (Cx Float)) : Float := a.foldl (fun acc z => acc + z.normSq) 0
+
+def qobsStr (q : QReg Float) : String := s!"{q.qNum} {q.qMask}"
+
+/-- compare `num qmask cvec` -/
+def cmpQObs (r : Report) (st : DSt) (ln : Nat) (cmd : String) (q : QReg Float) (obs : List String) :
+    Report × Array (Cx Float) :=
+  match obs with
+  | num :: mask :: rest =>
+    let r := if s!"{num} {mask}" == qobsStr q then r else r.mismatch st ln (cmd ++ ".shape") (qobsStr q) s!"{num} {mask}"
+    match parseCVec rest with
+    | some (impl, _) => (if closeVec q.psi impl then r else r.mismatch st ln cmd (firstDiff q.psi impl) (showVec impl), impl)
+    | none => (r.mismatch st ln cmd "cvec" "unparsable", #[])
+  | _ => (r.mismatch st ln cmd "num mask cvec" (String.intercalate " " (obs.take 3)), #[])
+
+def specCheck (r : Report) (st : DSt) (ln : Nat) (tag : String) (ok : Bool) (want got : String) : Report :=
+  let r := { r with speclines := r.speclines + 1 }
+  if ok then r else r.specfail st ln tag want got
+
+/-- C05: unit norm, zero padding, finite -/
+def specValid (r : Report) (st : DSt) (ln : Nat) (n : Nat) (impl : Array (Cx Float)) : Report :=
+  let size := 2 ^ n
+  let nrm := normSqArr impl
+  let r := specCheck r st ln "c05.norm" (Float.abs (nrm - 1.0) ≤ 1e-6) "1" (toString nrm)
+  let r := specCheck r st ln "c05.len" (impl.size == max size 8) (toString (max size 8)) (toString impl.size)
+  let padOk := (List.range impl.size).all (fun i => i < size || ((impl.getD i 0).re == 0.0 && (impl.getD i 0).im == 0.0))
+  let r := specCheck r st ln "c05.pad" padOk "zero padding" (showVec impl)
+  let fin := impl.all (fun z => z.re.isFinite && z.im.isFinite)
+  specCheck r st ln "c05.finite" fin "finite" (showVec impl)
+
+def cobsStr (c : CReg) : String := s!"{c.value} {c.qNum} {c.qMask}"
+
+def vobsStr (v : VReg) : String :=
+  s!"{v.idxAll} {v.bits.length}" ++ String.join (v.bits.map (fun b => s!" {b}"))
+
+/-- C20 spec for a virtual register built from `mask`: ascending set bits -/
+def specVReg (r : Report) (st : DSt) (ln : Nat) (mask : Nat) (obs : List String) : Report :=
+  let want := bitsOf mask
+  let wantStr := s!"{mask % 2 ^ 64} {want.length}" ++ String.join (want.map (fun b => s!" {b}"))
+  specCheck r st ln "c20.vreg" (wantStr == String.intercalate " " obs) wantStr (String.intercalate " " (obs.take 8))
+
+def stepReg (st : DSt) (r : Report) (ln : Nat) (cmd obs : List String) : Option (DSt × Report) :=
+  match cmd with
+  | ["q2reg", n, _] => do
+    let n ← tokNat n
+    some ({ st with q2 := if obs == ["ok"] then some (QReg.new n) else none }, r)
+  | ["q2state", n, s, _] => do
+    let n ← tokNat n; let s ← tokNat s
+    some ({ st with q2 := if obs == ["ok"] then some (QReg.withState n s) else none }, r)
+  | "set2psi" :: v => do
+    let (a, _) ← parseCVec v
+    let q2 ← st.q2
+    some ({ st with q2 := some { q2 with psi := a } }, r)
+  | "tensor" :: _ => do
+    let a ← st.q; let b ← st.q2
+    let t := a.tensorProd b
+    let (r, impl) := cmpQObs r st ln "tensor" t obs
+    -- SPEC (C14): left factor in the low-order bits, sizes add, padding zero
+    let n := a.qNum + b.qNum
+    let want : Array (Cx Float) := Array.ofFn (n := max (2 ^ n) 8) (fun i =>
+      if i.val < 2 ^ n then a.psi.getD (i.val % 2 ^ a.qNum) 0 * b.psi.getD (i.val / 2 ^ a.qNum) 0 else 0)
+    let r := specCheck r st ln "c14.tensor" (closeVec want impl) (showVec want) (showVec impl)
+    let r := specCheck r st ln "c14.tensor.num" (obs.head? == some (toString n)) (toString n) (obs.head?.getD "")
+    some ({ st with q := some t, q2 := none, implPsi := impl }, r)
+  | ["valid"] => do
+    let q ← st.q
+    let r := cmpVec r st ln "valid" q.psi obs
+    let impl := (parseCVec obs).map (·.1) |>.getD #[]
+    some ({ st with implPsi := impl }, specValid r st ln q.qNum impl)
+  | ["qobs"] => do
+    let q ← st.q
+    let (r, impl) := cmpQObs r st ln "qobs" q obs
+    some ({ st with implPsi := impl }, r)
+  | "measure" :: mtok :: _ => do
+    let q ← st.q
+    let mask ← if mtok == "all" then some q.qMask else tokNat mtok
+    match obs with
+    | value :: num :: qm :: drawn :: rest =>
+      let drawnN := (tokNat drawn).getD 0
+      let (q', c') := q.measureMask mask drawnN
+      let r := if cobsStr c' == s!"{value} {num} {qm}" then r else r.mismatch st ln "measure.creg" (cobsStr c') s!"{value} {num} {qm}"
+      let r := cmpVec r st ln "measure" q'.psi rest
+      let impl := (parseCVec rest).map (·.1) |>.getD #[]
+      -- SPEC (C06)
+      let pre := st.implPsi
+      let size := 2 ^ q.qNum
+      let m' := mask % 2 ^ 64 &&& (size - 1)
+      let v := (tokNat value).getD 0
+      let r := specCheck r st ln "c06.bits" (v &&& m' == v) s!"within {m'}" value
+      let r :=
+        if m' == 0 then
+          specCheck r st ln "c06.empty" (v == 0 && closeVec pre impl) "unchanged" (showVec impl)
+        else
+          let pv := (List.range size).foldl (fun acc i =>
+            if i &&& m' == v then acc + (pre.getD i 0).normSq else acc) 0
+          let r := specCheck r st ln "c06.possible" (pv > 0) "positive probability" (toString pv)
+          let zeros := (List.range impl.size).all (fun i =>
+            (i ^^^ v) &&& m' == 0 || ((impl.getD i 0).re == 0.0 && (impl.getD i 0).im == 0.0))
+          let r := specCheck r st ln "c06.zero" zeros "inconsistent amplitudes exactly 0" (showVec impl)
+          -- consistent amplitudes: one common positive factor
+          let best := (List.range size).foldl (fun b i =>
+            if i &&& m' == v && (pre.getD i 0).normSq > (pre.getD b 0).normSq then i
+            else if b &&& m' != v then i else b) 0
+          let lam := Float.sqrt ((impl.getD best 0).normSq / (pre.getD best 0).normSq)
+          let ratios := (List.range size).all (fun i =>
+            i &&& m' != v || closeC ((pre.getD i 0).scale lam) (impl.getD i 0))
+          let r := specCheck r st ln "c06.ratio" (pv ≤ 1e-20 || ratios) s!"pre * {lam}" (showVec impl)
+          r
+      let r := specValid r st ln q.qNum impl
+      some ({ st with q := some q', c := some c', implPsi := impl }, r)
+    | _ => some (st, r.mismatch st ln "measure" "value num mask drawn cvec" (String.intercalate " " (obs.take 4)))
+  | "resetmask" :: mask :: _ => do
+    let mask ← tokNat mask
+    let q ← st.q
+    match obs with
+    | drawn :: rest =>
+      let q' := q.resetByMask mask ((tokNat drawn).getD 0)
+      let r := cmpVec r st ln "resetmask" q'.psi rest
+      let impl := (parseCVec rest).map (·.1) |>.getD #[]
+      -- SPEC (C11): the named qubits end in |0>
+      let size := 2 ^ q.qNum
+      let m' := mask % 2 ^ 64 &&& (size - 1)
+      let zero := (List.range size).all (fun i => i &&& m' == 0 || (impl.getD i 0).normSq ≤ 1e-18)
+      let r := specCheck r st ln "c11.reset.zero" zero "named qubits in |0>" (showVec impl)
+      let r := specValid r st ln q.qNum impl
+      some ({ st with q := some q', implPsi := impl }, r)
+    | _ => none
+  | "vlist" :: l => do
+    let l ← l.mapM tokNat
+    let v ← st.v
+    let model := toString (v.idxList l)
+    let implS := String.intercalate " " obs
+    let r := if model == implS then r else r.mismatch st ln "vlist" model implS
+    let want := (List.range v.bits.length).foldl (fun acc i =>
+      if l.contains i then acc ||| v.bits.getD i 0 else acc) 0
+    let r := specCheck r st ln "c20.vidx" (toString want == implS) (toString want) implS
+    some (st, r)
+  | [c, n] =>
+    if c == "setnum" || c == "setnumnr" then do
+      let n ← tokNat n
+      let q ← st.q
+      let q' := q.setNum n
+      let (r, impl) := cmpQObs r st ln c q' obs
+      -- SPEC (C14): growing keeps the amplitudes and adds |0> qubits; shrinking gives |0…0>
+      let want : Array (Cx Float) := Array.ofFn (n := max (2 ^ n) 8) (fun i =>
+        if n < q.qNum then (if i.val = 0 then 1 else 0)
+        else if i.val < 2 ^ q.qNum then st.implPsi.getD i.val 0 else 0)
+      let r := specCheck r st ln "c14.setnum" (closeVec want impl) (showVec want) (showVec impl)
+      some ({ st with q := some q', implPsi := impl }, r)
+    else if c == "reset" then do
+      let i ← tokNat n
+      let q ← st.q
+      let q' := q.reset i
+      let r := cmpVec r st ln "reset" q'.psi obs
+      let impl := (parseCVec obs).map (·.1) |>.getD #[]
+      let r := specValid r st ln q.qNum impl
+      some ({ st with q := some q', implPsi := impl }, r)
+    else if c == "qvregby" then do
+      let m ← tokNat n
+      let q ← st.q
+      let model := match q.getVRegBy m with
+        | some v => "some " ++ vobsStr v
+        | none => "none"
+      let implS := String.intercalate " " obs
+      let r := if model == implS then r else r.mismatch st ln "qvregby" model implS
+      -- SPEC (C20): a view exists exactly when the mask lies inside the register
+      let inside := m &&& (2 ^ 64 - 1 - (2 ^ q.qNum - 1)) == 0
+      let r := specCheck r st ln "c20.view" (inside == (obs.head? == some "some")) (toString inside) (obs.head?.getD "")
+      let r := if inside && obs.head? == some "some" then specVReg r st ln m (obs.drop 1) else r
+      some (st, r)
+    else if c == "cnew" then do
+      let n ← tokNat n
+      let cr := CReg.new n
+      let implS := String.intercalate " " obs
+      let r := if cobsStr cr == implS then r else r.mismatch st ln "cnew" (cobsStr cr) implS
+      some ({ st with c := some cr }, r)
+    else if c == "creset" || c == "csetnum" then do
+      let x ← tokNat n
+      let cr ← st.c
+      let cr' := if c == "creset" then cr.reset x else cr.setNum x
+      let implS := String.intercalate " " obs
+      let r := if cobsStr cr' == implS then r else r.mismatch st ln c (cobsStr cr') implS
+      let v := (obs.head?.bind tokNat).getD 0
+      let r := specCheck r st ln "c20.creg.range" (v < 2 ^ cr'.qNum) s!"< 2^{cr'.qNum}" (toString v)
+      some ({ st with c := some cr' }, r)
+    else if c == "cgetmask" then do
+      let m ← tokNat n
+      let cr ← st.c
+      let model := toString (cr.getByMask m)
+      let implS := String.intercalate " " obs
+      let r := if model == implS then r else r.mismatch st ln c model implS
+      -- SPEC: the bits of value selected by mask (inside the register), packed low
+      let sel := bitsOf (m &&& (2 ^ cr.qNum - 1))
+      let want := (List.range sel.length).foldl (fun acc i =>
+        if cr.value &&& sel.getD i 0 ≠ 0 then acc + 2 ^ i else acc) 0
+      let r := specCheck r st ln "c20.creg.getmask" (toString want == implS) (toString want) implS
+      some (st, r)
+    else if c == "vreg" || c == "vnew" then do
+      let x ← tokNat n
+      let v := if c == "vreg" then VReg.ofMask x else VReg.new x
+      let implS := String.intercalate " " obs
+      let r := if vobsStr v == implS then r else r.mismatch st ln c (vobsStr v) implS
+      let mask := if c == "vreg" then x else (if x ≥ 64 then 2 ^ 64 - 1 else 2 ^ x - 1)
+      let r := specVReg r st ln mask obs
+      some ({ st with v := some v }, r)
+    else if c == "vidx" then do
+      let i ← tokNat n
+      let v ← st.v
+      let model := match v.idx i with | some b => toString b | none => "panic"
+      let implS := if implPanicked obs then "panic" else String.intercalate " " obs
+      let r := if model == implS then r else r.mismatch st ln c model implS
+      some (st, r)
+    else if c == "vpred" then do
+      let bits ← tokNat n
+      let v ← st.v
+      let model := toString (v.idxBy (fun i => bits.testBit i))
+      let implS := String.intercalate " " obs
+      let r := if model == implS then r else r.mismatch st ln c model implS
+      -- SPEC (C20): union of the selected positions' bits
+      let want := (List.range v.bits.length).foldl (fun acc i =>
+        if bits.testBit i then acc ||| v.bits.getD i 0 else acc) 0
+      let r := specCheck r st ln "c20.vidx" (toString want == implS) (toString want) implS
+      some (st, r)
+    else if c == "bitsiter" then do
+      let m ← tokNat n
+      let l := bitsIterList m
+      let model := s!"{l.length}" ++ String.join (l.map (fun b => s!" {b}"))
+      let implS := String.intercalate " " obs
+      let r := if model == implS then r else r.mismatch st ln c model implS
+      let w := bitsOf m
+      let want := s!"{w.length}" ++ String.join (w.map (fun b => s!" {b}"))
+      let r := specCheck r st ln "c20.bits" (want == implS) want implS
+      some (st, r)
+    else if c == "countbits" then do
+      let m ← tokNat n
+      let model := toString (popcount m)
+      let implS := String.intercalate " " obs
+      some (st, if model == implS then r else r.mismatch st ln c model implS)
+    else none
+  | ["probs"] => do
+    let q ← st.q
+    let model := q.getProbabilities
+    let (impl, _) ← parseFVec obs
+    let r := if closeList model impl then r else r.mismatch st ln "probs" (toString model) (toString impl)
+    -- SPEC (C07/C05/C14): |ψ_i|² / ‖ψ‖², 2^n entries, non-negative, summing to 1
+    let nrm := normSqArr st.implPsi
+    let want := (List.range (2 ^ q.qNum)).map (fun i => (st.implPsi.getD i 0).normSq / nrm)
+    let r := specCheck r st ln "c07.reported" (closeList want impl) (toString (want.take 8)) (toString (impl.take 8))
+    let r := specCheck r st ln "c14.size.probs" (impl.length == 2 ^ q.qNum) (toString (2 ^ q.qNum)) (toString impl.length)
+    let sum := impl.foldl (· + ·) 0
+    let r := specCheck r st ln "c05.probs" (impl.all (fun x => x ≥ 0 && x.isFinite) && Float.abs (sum - 1) ≤ 1e-6) "sum 1" (toString sum)
+    some (st, r)
+  | ["absolute"] => do
+    let q ← st.q
+    let (impl, _) ← parseFVec obs
+    let r := if closeList [q.getAbsolute] impl then r else r.mismatch st ln "absolute" (toString q.getAbsolute) (toString impl)
+    some (st, r)
+  | ["polar"] => do
+    let q ← st.q
+    let (impl, _) ← parseFVec obs
+    -- the polar form must reconstruct the amplitudes; 2^n entries
+    let r := specCheck r st ln "c14.size.polar" (impl.length == 2 * 2 ^ q.qNum) (toString (2 ^ q.qNum)) (toString (impl.length / 2))
+    let ok := (List.range (2 ^ q.qNum)).all (fun i =>
+      let rr := impl.getD (2 * i) 0; let th := impl.getD (2 * i + 1) 0
+      closeC ⟨rr * Float.cos th, rr * Float.sin th⟩ (q.psi.getD i 0))
+    let r := if ok then r else r.mismatch st ln "polar" (showVec q.psi) (toString (impl.take 8))
+    some (st, r)
+  | ["collapse", idy, mask] => do
+    let idy ← tokNat idy; let mask ← tokNat mask
+    let q ← st.q
+    let q' := q.collapseMask idy mask
+    let r := cmpVec r st ln "collapse" q'.psi obs
+    let impl := (parseCVec obs).map (·.1) |>.getD #[]
+    some ({ st with q := some q', implPsi := impl }, r)
+  | ["normalize"] => do
+    let q ← st.q
+    let q' := q.normalize
+    let r := cmpVec r st ln "normalize" q'.psi obs
+    let impl := (parseCVec obs).map (·.1) |>.getD #[]
+    some ({ st with q := some q', implPsi := impl }, r)
+  | ["sample", count, _] => do
+    let count ← tokNat count
+    let q ← st.q
+    let (normals, rest) ← parseFVec obs
+    let (hist, _) ← parseNVec rest
+    let r :=
+      if normals.isEmpty then r
+      else match q.sampleAll count normals with
+        | some h => if h == hist then r else r.mismatch st ln "sample" (toString (h.take 16)) (toString (hist.take 16))
+        | none => r.mismatch st ln "sample" "model-panic" (toString (hist.take 16))
+    -- SPEC (C16/C14): 2^n cells, exact total, no shots on impossible outcomes
+    let size := 2 ^ q.qNum
+    let r := specCheck r st ln "c16.len" (hist.length == size) (toString size) (toString hist.length)
+    let r := specCheck r st ln "c16.total" (hist.foldl (· + ·) 0 == count) (toString count) (toString (hist.foldl (· + ·) 0))
+    let zeroOk := (List.range size).all (fun i =>
+      (st.implPsi.getD i 0).normSq != 0.0 || hist.getD i 0 == 0)
+    let r := specCheck r st ln "c16.zero" zeroOk "no shots where p = 0" (toString (hist.take 16))
+    some (st, r)
+  | ["qvreg"] => do
+    let q ← st.q
+    let v := q.getVReg
+    let implS := String.intercalate " " obs
+    let r := if vobsStr v == implS then r else r.mismatch st ln "qvreg" (vobsStr v) implS
+    let r := specVReg r st ln (2 ^ q.qNum - 1) obs
+    let r := specCheck r st ln "c14.size.vreg" ((obs.getD 1 "") == toString q.qNum) (toString q.qNum) (obs.getD 1 "")
+    some (st, r)
+  | ["creg", n, s] => do
+    let n ← tokNat n; let s ← tokNat s
+    let cr := CReg.withState n s
+    let implS := String.intercalate " " obs
+    let r := if cobsStr cr == implS then r else r.mismatch st ln "creg" (cobsStr cr) implS
+    -- SPEC (C20/C14): the value is the requested one reduced modulo 2^n
+    let v := (obs.head?.bind tokNat).getD 0
+    let r := specCheck r st ln "c20.creg.new" (v == s % 2 ^ (min n 64)) (toString (s % 2 ^ (min n 64))) (toString v)
+    some ({ st with c := some cr }, r)
+  | [c, a, b] =>
+    if c == "cset" || c == "cxor" then do
+      let bit := a == "1"
+      let m ← tokNat b
+      let cr ← st.c
+      let cr' := if c == "cset" then cr.set bit m else cr.xor bit m
+      let implS := String.intercalate " " obs
+      let r := if cobsStr cr' == implS then r else r.mismatch st ln c (cobsStr cr') implS
+      -- SPEC (C20): exactly the given bits change
+      let v := (obs.head?.bind tokNat).getD 0
+      let want := if c == "cset" then (if bit then cr.value ||| m else cr.value ^^^ (cr.value &&& m))
+                  else (if bit then cr.value ^^^ m else cr.value)
+      let r := specCheck r st ln "c20.creg.upd" (v == want) (toString want) (toString v)
+      let r := if m &&& (2 ^ 64 - 1 - cr.qMask) == 0 && cr.value < 2 ^ cr.qNum then
+                 specCheck r st ln "c20.creg.range" (v < 2 ^ cr.qNum) s!"< 2^{cr.qNum}" (toString v) else r
+      some ({ st with c := some cr' }, r)
+    else if c == "ctensor" then do
+      let n2 ← tokNat a; let s2 ← tokNat b
+      let cr ← st.c
+      let other := CReg.withState n2 s2
+      let cr' := cr.tensorProd other
+      let implS := String.intercalate " " obs
+      let r := if cobsStr cr' == implS then r else r.mismatch st ln c (cobsStr cr') implS
+      -- SPEC (C14/C20): bits concatenated, left factor low
+      let v := (obs.head?.bind tokNat).getD 0
+      let want := cr.value + other.value * 2 ^ cr.qNum
+      let r := if cr.value < 2 ^ cr.qNum && cr.qNum + n2 ≤ 64 then
+                 specCheck r st ln "c14.ctensor" (v == want && obs.getD 1 "" == toString (cr.qNum + n2)) (toString want) implS
+               else r
+      some ({ st with c := some cr' }, r)
+    else none
+  | ["cdebug"] => do
+    let cr ← st.c
+    let implS := String.intercalate " " obs
+    let r := if cr.debug == implS then r else r.mismatch st ln "cdebug" cr.debug implS
+    -- SPEC (C20): n binary digits, most significant first
+    let digits := String.ofList ((List.range cr.qNum).reverse.map (fun i => if cr.value.testBit i then '1' else '0'))
+    let r := specCheck r st ln "c20.creg.debug" (implS == "(" ++ digits ++ ")") ("(" ++ digits ++ ")") implS
+    some (st, r)
+  | _ => none
+
 def step (st : DSt) (r : Report) (ln : Nat) (cmd obs : List String) : DSt × Report :=
   match cmd with
   | "op" :: prog =>
@@ -259,18 +644,18 @@ def step (st : DSt) (r : Report) (ln : Nat) (cmd obs : List String) : DSt × Rep
   | ["qreg", n, thr] =>
     match tokNat n, tokNat thr with
     | some n, some _ =>
-      if obs == ["ok"] then ({ st with q := some (QReg.new n) }, r)
+      if obs == ["ok"] then ({ st with q := some (QReg.new n), implPsi := (QReg.new n : QReg Float).psi }, r)
       else ({ st with q := none }, r)
     | _, _ => (st, r.mismatch st ln "qreg" "bad-args" "")
   | ["qstate", n, s, thr] =>
     match tokNat n, tokNat s, tokNat thr with
     | some n, some s, some _ =>
-      if obs == ["ok"] then ({ st with q := some (QReg.withState n s) }, r)
+      if obs == ["ok"] then ({ st with q := some (QReg.withState n s), implPsi := (QReg.withState n s : QReg Float).psi }, r)
       else ({ st with q := none }, r)
     | _, _, _ => (st, r.mismatch st ln "qstate" "bad-args" "")
   | "setpsi" :: v =>
     match parseCVec v, st.q with
-    | some (a, _), some q => ({ st with q := some { q with psi := a } }, r)
+    | some (a, _), some q => ({ st with q := some { q with psi := a }, implPsi := a }, r)
     | _, _ => (st, r.mismatch st ln "setpsi" "bad-args-or-no-reg" "")
   | ["psi"] =>
     match st.q with
@@ -318,9 +703,11 @@ def step (st : DSt) (r : Report) (ln : Nat) (cmd obs : List String) : DSt × Rep
         let r := match st.spec with
           | some gs => cmpSpecVec r st ln c (specApply gs pre) obs
           | none => r
-        ({ st with q := some q' }, r)
+        ({ st with q := some q', implPsi := ((parseCVec obs).map (·.1)).getD q'.psi }, r)
       | _, _ => (st, r.mismatch st ln c "no-reg-or-op" "")
-    else (st, r.mismatch st ln c "unknown-command" "")
+    else match stepReg st r ln cmd obs with
+      | some res => res
+      | none => (st, r.mismatch st ln c "unknown-command-or-bad-state" "")
   | ["metactrl", m] =>
     match tokNat m, st.q, st.op with
     | some m, some q, some e =>
@@ -471,7 +858,10 @@ def step (st : DSt) (r : Report) (ln : Nat) (cmd obs : List String) : DSt × Rep
         | none => r
       (st, r)
     | _, _ => (st, r.mismatch st ln "matrix" "no-op" "")
-  | c :: _ => (st, r.mismatch st ln c "unknown-command" "")
+  | c :: _ =>
+    match stepReg st r ln cmd obs with
+    | some res => res
+    | none => (st, r.mismatch st ln c "unknown-command-or-bad-state" "")
   | [] => (st, r)
 
 def splitLine (line : String) : List String × List String :=
